@@ -22,6 +22,9 @@ def variants(text: str, seed: str, k: int) -> dict:
         t2 = respell.respell(toks, r) if j % 2 == 0 else toks
         txt, _ = respell.layout(t2, r, wild=0.5 if j else 0.0)
         out.append(txt)
+    # the same file with the other line break convention: every LF (those inside multi-line literals included) as CR LF
+    for base in ([text] + out[:1]):     # the text as given, and its first re-spelling (which may hold multi-line literals)
+        out.append(base.replace("\r\n", "\n").replace("\n", "\r\n"))
     return {"ok": True, "variants": out}
 
 
